@@ -248,6 +248,7 @@ fn check_inv(ctx: &InsertionContext, what: &str) -> Check {
         if is_conditional(job) {
             ensure!(p.iter().filter(|x| x.starts_with("route")).count() <= 1, "inv:conditional-job-in-two-tours", "{what}: marker job {} lives in {p:?}", job_label(job));
             ensure!(p.len() <= 1 || !p.iter().any(|x| x.starts_with("route")), "inv:conditional-job-assigned-and-pending", "{what}: marker job {} lives in {p:?}", job_label(job));
+            ensure!(!p.is_empty(), "inv:conditional-job-lost", "{what}: marker job {} is neither in a tour nor required / ignored / unassigned", job_label(job));
         } else {
             ensure!(p.len() == 1, if p.is_empty() { "inv:job-lost" } else { "inv:job-in-several-places" }, "{what}: job {} lives in {p:?}", job_label(job));
         }
@@ -470,7 +471,7 @@ impl Prop for OpsProp {
         if self.cache { "operator_histories_cache" } else { "operator_histories_invariant" }
     }
     fn strategy(&self, tier: Tier) -> BoxedStrategy<OpsCase> {
-        (problem_spec(tier.pick(12, 24)), 0u8..RECREATES.len() as u8, any::<u64>(), prop::collection::vec(op_strategy(), 1..=tier.pick(12, 40))).prop_map(|(spec, initial, seed, ops)| OpsCase { spec, initial, seed, ops }).boxed()
+        (mixed_spec(tier.pick(12, 24)), 0u8..RECREATES.len() as u8, any::<u64>(), prop::collection::vec(op_strategy(), 1..=tier.pick(12, 40))).prop_map(|(spec, initial, seed, ops)| OpsCase { spec, initial, seed, ops }).boxed()
     }
     fn cases(&self, tier: Tier) -> u32 {
         tier.pick(4_800, 100_000)
